@@ -165,7 +165,11 @@ func oracleC07(o *Outcome) []Violation {
 				later := false
 				for _, u1 := range o.Hist.Ups {
 					if u1.Key == c.Key && u1.ArriveSeq > u0.ArriveSeq && u1.ArriveSeq < c.ReturnSeq && u1.Task != c.Task {
-						later = true // another request reached the origin before c returned: it may have opened a new period
+						// another request reached the origin before c returned: unless it was itself
+						// passing under the marker (label hitForPass) it may have opened a new period
+						if u1.Req < 0 || byReq[o.Hist.Reqs[u1.Req]] == nil || byReq[o.Hist.Reqs[u1.Req]].XStatus != "hitForPass" {
+							later = true
+						}
 					}
 				}
 				if !later && v.XStatus == "hitForPass" {
